@@ -308,7 +308,10 @@ def base_cases(draw):
         t = draw(st.sampled_from(sorted(TEXT_ATTR)))
         alpha = st.characters(codec=cs, exclude_categories=['Cs'])
         opts = [st.text(alpha, max_size=8), st.sampled_from(['', 'a', 'abc', 'A b', 'abc\x00', '\x00', 'pad\x00\x00', '\xef\xbb\xbfabc', '\xef\xbb\xbf',
-                                                               '\xfe\xff\x00a', '\xff\xfea\x00', '+AGE-', '\x1b$B'])]
+                                                               '\xfe\xff\x00a', '\xff\xfea\x00', '+AGE-', '\x1b$B',
+                                                               # characters that are invisible or special in Unicode are still text
+                                                               '\ufeffIntro', '\ufeff', 'a\ufeff', '\ufffeX', '\u200bzero',
+                                                               '\u2028line', 'e\u0301', '\ud7ff', '\uffff'])]
         if codecs.lookup(cs).name != 'ascii':
             opts.append(st.text(st.characters(codec=cs, min_codepoint=0x80, exclude_categories=['Cs']), max_size=4))
         text = draw(st.one_of(*opts))
